@@ -203,3 +203,64 @@ Definition list_mismatches (cs : list list_case) : list (nat * nat) :=
                      let k2 := list_case_wf_code c in
                      (if Nat.eqb k 0 then [] else [(lc_id c, k)]) ++
                      (if Nat.eqb k2 0 then [] else [(lc_id c, k2)])) cs.
+
+(* ---------- relations between two reports, decided pointwise (C14, C16, C17, C13, C06) ----------
+   A point is a workload (by its report name) or a single address.  Two reports with different IP
+   partitions are compared on the workloads and on the lower end points of all IP ranges of both
+   reports: inside one block of the common refinement neither report changes its answer. *)
+Inductive pt := PW (s : string) | PA (a : Z).
+
+Definition covers (p : rpeer) (x : pt) : bool :=
+  match p, x with
+  | RW s, PW t => String.eqb s t
+  | RIP lo hi, PA a => (lo <=? a) && (a <=? hi)
+  | _, _ => false
+  end.
+
+Definition lookup_pt (es : list rentry) (s d : pt) : option connset :=
+  match find (fun e => covers (re_src e) s && covers (re_dst e) d) es with
+  | Some e => Some (re_conn e)
+  | None => None
+  end.
+
+(* the peers list names every end of every entry (part of well-formedness, checked by wf_report_b) *)
+Definition pts_of (es : list rentry) (peers : list rpeer) : list pt :=
+  flat_map (fun p => match p with RW s => [PW s] | RIP lo _ => [PA lo] end) peers.
+
+Definition copt_eq (a b : option connset) : bool :=
+  match a, b with
+  | None, None => true
+  | Some x, Some y => cs_struct_eqb x y
+  | _, _ => false
+  end.
+Definition copt_le (a b : option connset) : bool :=
+  match a, b with
+  | None, _ => true
+  | Some x, None => cs_isempty x
+  | Some x, Some y => cs_containedin x y
+  end.
+
+Definition pt_is (names : list string) (x : pt) : bool :=
+  match x with PW s => str_mem s names | PA _ => false end.
+
+(* rel: 0 equal, 1 first <= second, 2 first >= second.
+   [skip_src] / [skip_dst]: workloads excluded as source / as destination (locality edits) *)
+Definition reports_rel_b (rel : nat) (skip_src skip_dst : list string)
+           (es1 : list rentry) (ps1 : list rpeer) (es2 : list rentry) (ps2 : list rpeer) : bool :=
+  let pts := pts_of es1 ps1 ++ pts_of es2 ps2 in
+  forallb (fun s => forallb (fun d =>
+     pt_is skip_src s || pt_is skip_dst d ||
+     match s, d with PA _, PA _ => true | _, _ => false end ||      (* two addresses are never an entry *)
+     let a := lookup_pt es1 s d in let b := lookup_pt es2 s d in
+     match rel with
+     | 0%nat => copt_eq a b
+     | 1%nat => copt_le a b
+     | _ => copt_le b a
+     end) pts) pts.
+
+Record meta_case := mkMC { mc_id : nat; mc_rel : nat; mc_skip_src : list string; mc_skip_dst : list string;
+                           mc_es1 : list rentry; mc_ps1 : list rpeer; mc_es2 : list rentry; mc_ps2 : list rpeer }.
+
+Definition meta_mismatches (cs : list meta_case) : list (nat * nat) :=
+  flat_map (fun c => if reports_rel_b (mc_rel c) (mc_skip_src c) (mc_skip_dst c) (mc_es1 c) (mc_ps1 c) (mc_es2 c) (mc_ps2 c)
+                     then [] else [(mc_id c, mc_rel c)]) cs.
